@@ -158,6 +158,7 @@ def it_next(vm, it):
 def restore_iter(dst, src):
     if isinstance(dst, CharIdx): dst.pos, dst.back = src.pos, src.back; return
     if isinstance(dst, It): dst.a[:] = src.a; return
+    if isinstance(dst, Adt) and isinstance(src, Adt): dst.variant = src.variant; dst.fields[:] = src.fields; return
     raise Unmodelled('restore iterator ' + repr(dst))
 
 
@@ -680,6 +681,11 @@ def _(vm, a, ci):
     items = drain(vm, into_iter(vm, a[1]))
     if isinstance(tgt, Adt) and tgt.ty in ('Vec', 'VecDeque', 'SmallVec', 'ArrayVec'):
         tgt.fields[0].items.extend(items); return UNIT
+    if isinstance(tgt, HMap):
+        from .std_coll import hmap_insert
+        kt = tyarg(ci)
+        for kv in items: hmap_insert(vm, tgt, kt, kv.fields[0], kv.fields[1])
+        return UNIT
     if isinstance(tgt, (SymStr, BStr)):
         from .std_str import str_concat
         cur = tgt
